@@ -503,9 +503,164 @@ func ConstInt(v ssa.Value) (int64, bool) {
 func ConstString(v ssa.Value) (string, bool) {
 	c, ok := v.(*ssa.Const)
 	if !ok || c.Value == nil || c.Value.Kind() != constant.String {
+		// an element of a package-level table of constant strings that is written nowhere but in its initialiser and
+		// whose entries are all the same string (a one-entry table): that string, whatever the index
+		var tab *ssa.Global
+		if ix, isIx := v.(*ssa.Index); isIx { // `for _, x := range table`: go/ssa indexes a copy of the array
+			if ld, isLd := ix.X.(*ssa.UnOp); isLd && ld.Op == token.MUL {
+				tab, _ = ld.X.(*ssa.Global)
+			}
+		}
+		if tab != nil {
+			if vals := constStringTable(tab); len(vals) > 0 {
+				same := true
+				for _, x := range vals {
+					if x != vals[0] {
+						same = false
+					}
+				}
+				if same {
+					return vals[0], true
+				}
+			}
+		}
+		if ld, isLd := v.(*ssa.UnOp); isLd && ld.Op == token.MUL {
+			if ia, isIA := ld.X.(*ssa.IndexAddr); isIA {
+				if g, isG := ia.X.(*ssa.Global); isG {
+					if vals := constStringTable(g); len(vals) > 0 {
+						same := true
+						for _, x := range vals {
+							if x != vals[0] {
+								same = false
+							}
+						}
+						if same {
+							return vals[0], true
+						}
+					}
+				}
+			}
+		}
 		return "", false
 	}
 	return constant.StringVal(c.Value), true
+}
+
+var constTableCache = map[*ssa.Global][]string{}
+
+// constStringTable: the entries of a package-level array of strings initialised with constants and never written
+// afterwards (nor handed out by address); nil otherwise.
+func constStringTable(g *ssa.Global) []string {
+	if vals, done := constTableCache[g]; done {
+		return vals
+	}
+	constTableCache[g] = nil
+	arr, ok := ptrElem(g.Type()).Underlying().(*types.Array)
+	if !ok || g.Pkg == nil {
+		return nil
+	}
+	if b, isB := arr.Elem().Underlying().(*types.Basic); !isB || b.Kind() != types.String {
+		return nil
+	}
+	vals := make([]string, arr.Len())
+	got := make([]bool, arr.Len())
+	okAll := true
+	for _, m := range g.Pkg.Members {
+		fn, ok := m.(*ssa.Function)
+		if !ok {
+			continue
+		}
+		for _, f := range WithClosures(fn) {
+			for _, b := range f.Blocks {
+				for _, in := range b.Instrs {
+					ia, isIA := in.(*ssa.IndexAddr)
+					if !isIA || ia.X != ssa.Value(g) || ia.Referrers() == nil {
+						if _, isLd := in.(*ssa.UnOp); !isLd {
+							var buf [8]*ssa.Value
+							for _, op := range in.Operands(buf[:0]) {
+								if op != nil && *op == ssa.Value(g) && !isIA {
+									if st, isSt := in.(*ssa.Store); isSt && st.Addr == ssa.Value(g) {
+										continue // judged below
+									}
+									okAll = false // the table's address is used in some other way
+								}
+							}
+						}
+						continue
+					}
+					for _, u := range *ia.Referrers() {
+						switch x := u.(type) {
+						case *ssa.Store:
+							k, isK := ConstInt(ia.Index)
+							c, isC := x.Val.(*ssa.Const)
+							if f.Name() != "init" || !isK || !isC || c.Value == nil || c.Value.Kind() != constant.String || x.Addr != ssa.Value(ia) || k < 0 || k >= arr.Len() {
+								okAll = false
+								continue
+							}
+							vals[k], got[k] = constant.StringVal(c.Value), true
+						case *ssa.UnOp, *ssa.DebugRef:
+						default:
+							okAll = false
+						}
+					}
+				}
+			}
+		}
+	}
+	// initialised as a whole from a local literal: `t := local [n]string; t[k] = c…; *g = *t` in init
+	for _, m := range g.Pkg.Members {
+		fn, ok := m.(*ssa.Function)
+		if !ok {
+			continue
+		}
+		for _, f := range WithClosures(fn) {
+			for _, b := range f.Blocks {
+				for _, in := range b.Instrs {
+					st, isSt := in.(*ssa.Store)
+					if !isSt || st.Addr != ssa.Value(g) {
+						continue
+					}
+					ld, isLd := st.Val.(*ssa.UnOp)
+					if f.Name() != "init" || !isLd {
+						okAll = false
+						continue
+					}
+					lit, isLit := ld.X.(*ssa.Alloc)
+					if !isLit || lit.Referrers() == nil {
+						okAll = false
+						continue
+					}
+					for _, u := range *lit.Referrers() {
+						ia, isIA := u.(*ssa.IndexAddr)
+						if !isIA || ia.Referrers() == nil {
+							continue
+						}
+						k, isK := ConstInt(ia.Index)
+						for _, uu := range *ia.Referrers() {
+							if s2, ok := uu.(*ssa.Store); ok && s2.Addr == ssa.Value(ia) {
+								c, isC := s2.Val.(*ssa.Const)
+								if !isK || !isC || c.Value == nil || c.Value.Kind() != constant.String || k < 0 || k >= arr.Len() {
+									okAll = false
+									continue
+								}
+								vals[k], got[k] = constant.StringVal(c.Value), true
+							}
+						}
+					}
+				}
+			}
+		}
+	}
+	for _, gk := range got {
+		if !gk {
+			okAll = false
+		}
+	}
+	if !okAll {
+		return nil
+	}
+	constTableCache[g] = vals
+	return vals
 }
 
 // IsNilConst reports whether v is the nil constant.
